@@ -261,10 +261,11 @@ def pass_outcomes(cfg: CFG, m: Module, stmt: ast.AST) -> Tuple[List[Node], List[
     # inside a loop the statement is reachable again from every outcome, through the next evaluation of the guard: a path
     # that re-enters the guard's own tests does not count
     atom_branches = [b for b in cfg.nodes if b.kind == "branch" and any(b.ast is a for a in atoms)]
+    first = [b for b in atom_branches if atoms and b.ast is atoms[0]]  # every evaluation of the guard starts with its first test
     for a in atoms:
         for b in atom_branches:
             if b.ast is a:
-                if cfg.find_path([b], targets, avoid=[x for x in atom_branches if x is not b]) is None:
+                if cfg.find_path([b], targets, avoid=[x for x in first if x is not b]) is None:
                     outs.append(b)
     return outs, atoms
 
